@@ -302,6 +302,9 @@ func TestVerifValues(t *testing.T) {
 		if c.Kind == "maps" {
 			return c07vRunMaps(c.Pool, c.Prog)
 		}
+		if f, ok := c07pTypes[strings.TrimPrefix(c.Kind, "prim:")]; ok {
+			return f(c.Pool, c.Prog)
+		}
 		return c07vRunValues(c.Pool, c.Prog)
 	}
 	if ctx.ReplayRaw != nil {
@@ -320,11 +323,18 @@ func TestVerifValues(t *testing.T) {
 	}
 	depth := ctx.Param("vdepth", 4)
 	var n int64
-	for _, kind := range []string{"values", "maps"} {
+	kinds := []string{"values", "maps"}
+	for _, t := range []string{"ByteSlice", "Float64Slice", "Int32Slice", "Int64Slice", "IntSlice", "StringSlice", "UInt64Slice"} {
+		kinds = append(kinds, "prim:"+t)
+	}
+	for _, kind := range kinds {
 		pool := 2
 		ops := c07vValueOps
 		if kind == "maps" {
 			ops = c07vMapOps
+		}
+		if strings.HasPrefix(kind, "prim:") {
+			ops = c07pOps
 		}
 		var alpha []c07vOp
 		for a := 0; a < pool; a++ {
